@@ -811,7 +811,10 @@ class Call(object):
         """number of points the enumeration visits (random-size lists: elements beyond the size are pinned)"""
         n = 1
         for _, t in self.rand_leaves:
-            n *= len(leaf_domain(self.prog, t))
+            if t[0] == "int":
+                n *= (1 << t[1])          # (len() of a 64-bit range overflows)
+            else:
+                n *= len(leaf_domain(self.prog, t))
         return n
 
     def canonical_domain_size(self):
